@@ -105,7 +105,11 @@ func nearMisses(pat string) []string {
 		ports = append(ports, port)
 		if n, err := strconv.Atoi(port[1:]); err == nil {
 			ports = append(ports, ":"+strconv.Itoa(n+1), ":"+strconv.Itoa(n)+"0")
+			// the same port modulo 2^16, 2^32 and 2^64 (integer wrap-around in a digit loop)
+			ports = append(ports, ":"+strconv.Itoa(n+65536), ":"+strconv.Itoa(n+1<<32), ":"+addDecimal("18446744073709551616", n), ":"+addDecimal("340282366920938463463374607431768211456", n))
 		}
+	} else {
+		ports = append(ports, ":18446744073709551696", ":18446744073709552059", ":4294967376") // 2^64+80, 2^64+443, 2^32+80
 	}
 	schemes := []string{scheme, scheme + "s", scheme[:len(scheme)-1], "x" + scheme, strings.ToUpper(scheme)}
 	var out []string
@@ -119,6 +123,22 @@ func nearMisses(pat string) []string {
 		if s != "" {
 			out = append(out, s+"://"+base+port0(port), s+"://a."+base+port0(port))
 		}
+	}
+	return out
+}
+
+// addDecimal adds a small non-negative n to a decimal string (no big-integer package needed)
+func addDecimal(dec string, n int) string {
+	digits := []byte(dec)
+	carry := n
+	for i := len(digits) - 1; i >= 0 && carry > 0; i-- {
+		v := int(digits[i]-'0') + carry
+		digits[i] = byte('0' + v%10)
+		carry = v / 10
+	}
+	out := string(digits)
+	if carry > 0 {
+		out = strconv.Itoa(carry) + out
 	}
 	return out
 }
